@@ -9,3 +9,4 @@ import BnpVerif.Props.C10
 #print axioms C10.merge_per_chromosome
 #print axioms C10.clip_extend_windows_inside
 #print axioms C10.sorted_genome_order
+#print axioms C10.traced_kernels
